@@ -4,6 +4,7 @@
 //   dreduce : cases "part P lo hi grain" (part 0 simple / 2 static) -> preorder encoding of the split/join tree (0 lo hi | 1 l r)
 //   scan    : cases "part P lo hi grain spin" -> per element: number of final passes, prefix seen correct?; result correct?
 //   sort    : cases "P K v0 v1 ..." -> sorts by key v/K (ties!) ; prints 1 if sorted permutation, else 0 and details
+//   invsweep: cases "A n desc" -> all n-1 one-inversion inputs sorted in an arena of A slots; prints number left unsorted and the first position
 //   pretest : cases "P n" -> sorted input of size n, comparator logs compared pairs; prints sorted list of (i) for pairs (i,i+1)
 #include "common.h"
 #include <memory>
@@ -186,11 +187,28 @@ int main(int argc, char** argv) {
             tbb::global_control gc(tbb::global_control::max_allowed_parallelism, P);
             tbb::parallel_sort(v.begin(), v.end(), LogLess{v.data(), &pm, &pairs});
             // adjacent pairs (i, i+1) compared in either direction
-            std::set<long> adj;
-            for (long p : pairs) { long a = p / 1000000, b = p % 1000000; if (a == b + 1) adj.insert(b); else if (b == a + 1) adj.insert(a); else { o.word("NONADJ"); o.put(a); o.put(b); } }
+            std::set<long> adj; long selfcmp = 0;
+            for (long p : pairs) { long a = p / 1000000, b = p % 1000000; if (a == b + 1) adj.insert(b); else if (b == a + 1) adj.insert(a); else if (a == b) selfcmp++; else { o.word("NONADJ"); o.put(a); o.put(b); } }
             for (long i : adj) o.put(i);
             bool same = true; for (long i = 0; i < n; ++i) if (v[i] != i) same = false;
             o.word(same ? "KEPT" : "CHANGED");
+        } else if (m == "invsweep") {
+            // A n desc: every input that is sorted except for ONE exchanged adjacent pair must come out sorted (arena of A slots, 0 = default arena)
+            int A = (int)c[0]; long n = (long)c[1]; bool desc = c[2] != 0;
+            long bad = 0, first = -1;
+            auto body = [&] {
+                std::vector<long> v(n);
+                for (long i = 0; i + 1 < n; ++i) {
+                    for (long j = 0; j < n; ++j) v[j] = desc ? n - j : j;
+                    std::swap(v[i], v[i + 1]);
+                    if (desc) tbb::parallel_sort(v.begin(), v.end(), std::greater<long>()); else tbb::parallel_sort(v.begin(), v.end());
+                    bool okk = true; for (long j = 0; j < n; ++j) if (v[j] != (desc ? n - j : j)) { okk = false; break; }
+                    if (!okk) { if (!bad) first = i; bad++; }
+                    wd.epoch++;
+                }
+            };
+            if (A > 0) { tbb::task_arena ar(A); ar.execute(body); } else body();
+            o.put(bad); o.put(first);
         }
         o.flush();
         wd.disarm();
